@@ -398,6 +398,14 @@ func load(repo string, overlay map[string][]byte, tags string) (*A, error) {
 				break
 			}
 		}
+		if !fresh && inv["closure:inventory-has-closures"] {
+			for k := range declaredClosures(repo, overlay) {
+				if !inv[k] {
+					fresh = true
+					break
+				}
+			}
+		}
 		if fresh {
 			norm = normalize(repo, pkgs, overlay, inv)
 			if len(norm.Inlined)+len(norm.Removed) > 0 {
